@@ -78,13 +78,17 @@ Definition s_le (a b : sval) : option bool :=
             end
   end.
 
-(* = : byte-level on text, numeric on integers, on Booleans *)
+(* = : byte-level on text, numeric on numbers (two integers as integers; an integer is compared
+   with a float as that float, exactly as for < and <=), on Booleans *)
 Definition s_eq (a b : sval) : option bool :=
   match a, b with
   | SText x, SText y => Some (String.eqb x y)
   | SInt x, SInt y => Some (Z.eqb x y)
   | SBool x, SBool y => Some (Bool.eqb x y)
-  | _, _ => None
+  | _, _ => match as_float a, as_float b with
+            | Some x, Some y => Some (feqb fo x y)
+            | _, _ => None
+            end
   end.
 
 (* numeric equality used by IN over numbers *)
